@@ -196,10 +196,10 @@ def gen_queries(rng, tab, nq):
     return out
 
 
-def run_probes(kind, z, table, queries):
+def run_probes(kind, z, table, queries, single=False):
     """queries [(class, I, V)] -> list of (class, I, V, row | None); the mux takes one system per query"""
     args = comp_args(kind, z, table)
-    groups = [[q] for q in queries] if kind == "pmux" else [queries]
+    groups = [[q] for q in queries] if (kind == "pmux" or single) else [queries]
     out = []
     for g in groups:
         branches = [{"v": v, "i": i, "kind": kind, "args": args} for (_c, i, v) in g]
@@ -220,11 +220,11 @@ def model_values(ctx, table, z, pts):
     return m
 
 
-def check_table(ctx, kind, z, table, queries, case, f11=False):
+def check_table(ctx, kind, z, table, queries, case, f11=False, fine=False):
     """one table: probes, correspondence with the model, oracle; returns the number of usable probes"""
     tab = Tab(table, z)
     args = comp_args(kind, z, table)
-    res = run_probes(kind, z, table, queries)
+    res = run_probes(kind, z, table, queries, single=fine)
     usable = []
     for (c, i, v, row, err) in res:
         if f11 and err is not None and err[0] == "build" and probe.exc_name(err[1]) == "ValueError":
@@ -233,6 +233,13 @@ def check_table(ctx, kind, z, table, queries, case, f11=False):
             continue
         if err is not None:
             ctx.stats["probe_error:%s" % probe.exc_name(err[1])] += 1
+            if fine and err[0] == "solve" and "Unstable system" in str(err[1]):
+                # a NaN lookup (the laws compare signs with it): the property says "never NaN"
+                ctx.case(key=[kind, z, repr(table), i, v], nontrivial=True)
+                ctx.oracle(dict(case, queries=[[c, i, v]]), "never_nan", kind, {"fine_step": True, "dim": 2},
+                           {"pair": kind + "." + z, "query": [i, v], "class": c, "error": str(err[1]),
+                            "min_step_over_largest_coordinate": case.get("step_ratio")})
+                continue
             ctx.oracle(case, "probe_solves", kind, {}, {"query": [i, v], "error": repr(err[1])})
             continue
         if (z == "eff" or (kind == "rectifier" and z == "ig")) and row["iout"] == 0.0:
@@ -260,7 +267,8 @@ def check_table(ctx, kind, z, table, queries, case, f11=False):
             ctx.oracle(case, "probe_pins", kind, {}, {"query": [i, v], "row": row})
             continue
         if val is None or not math.isfinite(val):
-            ctx.oracle(case, "finite", kind, {}, {"query": [i, v], "value": val, "row": row})
+            ctx.oracle(case, "never_nan" if fine else "finite", kind, {"fine_step": True, "dim": 2} if fine else {},
+                       {"query": [i, v], "value": val, "row": row})
             continue
         # correspondence (either diagonal for 2-D)
         if m is not None:
@@ -351,6 +359,39 @@ def check_const(ctx, desc):
 
 
 F11_WITNESS = {"vi": [5.0], "io": [-2.0, -1.0], "vdrop": [[0.1, 0.2]]}
+# finding F31-C10-QHULL-NAN: the smallest io step is 3.4e-4 of the largest coordinate (the property's conditioning allows 1e-4);
+# the lookups at the tabulated points (1.8365 A | 1.8731 A | 1.9457 A, 5.115 V) are NaN
+FINE_WITNESSES = [
+    ("linreg", "ig", {"vi": [2.075, 5.115], "io": [0.12703, 1.1307, 1.13244, 1.8365, 1.8731, 1.9457],
+                      "ig": [[0.05303, 0.08741, 0.09697, 0.04409, 0.05634, 0.03143],
+                             [0.06799, 0.07987, 0.04015, 0.04122, 0.09567, 0.01179]]}),
+]
+
+
+def gen_fine(rng):
+    """2-D table with ONE io step between 1e-4 and 1e-3 of the largest coordinate of the table (inside the property's
+    conditioning, where scipy's Delaunay triangulation of the grid starts to lose boundary points)"""
+    kind, z = rng.choice([p for p in PAIRS if p[0] != "pmux"])
+    vmax = rng.uniform(5.0, 30.0)
+    nvi = rng.choice([2, 3, 4])
+    while True:
+        vis = sorted(float("%.4g" % rng.uniform(0.3 * vmax, vmax)) for _ in range(nvi - 1)) + [float("%.4g" % vmax)]
+        if min(b - a for a, b in zip(vis, vis[1:])) >= 0.05 * vmax:
+            break
+    top = max(vis)
+    nio = rng.randint(3, 6)
+    while True:
+        r = rng.uniform(1.0e-4, 1.0e-3)
+        ios = sorted(float("%.5g" % rng.uniform(0.05, IMAX)) for _ in range(nio))
+        k = rng.randrange(nio - 1)
+        ios[k + 1] = float("%.7g" % (ios[k] + 1.02 * r * top))
+        ios = sorted(ios)
+        if min(b - a for a, b in zip(ios, ios[1:])) >= r * top and len(set(ios)) == nio:
+            break
+    lo, hi = value_range(z, 0.5 * vis[0])
+    t = {"vi": vis, "io": ios, z: [[ud(rng, lo, hi, 4) for _ in ios] for _ in vis]}
+    ratio = min(b - a for a, b in zip(ios, ios[1:])) / top
+    return kind, z, t, ratio
 
 
 def gen_f11(rng):
@@ -363,6 +404,17 @@ def gen_f11(rng):
     lo, hi = value_range(z, 1.0)
     t = {"vi": [5.0], "io": neg, z: [[ud(rng, lo, hi, 4) for _ in neg]]}
     return kind, z, t
+
+
+def fine_stream(ctx, kind, z, t, ratio):
+    tab = Tab(t, z)
+    qs = [("knot", x, y) for x in (tab.io[0], tab.io[-1]) for y in (tab.vi[0], tab.vi[-1])]
+    qs += [("knot", tab.io[ctx.rng.randrange(len(tab.io))], tab.vi[ctx.rng.randrange(len(tab.vi))]) for _ in range(2)]
+    qs += [("outside:NE", 1.5 * tab.io[-1], 1.2 * tab.vi[-1]), ("outside:SE", 1.5 * tab.io[-1], 0.8 * tab.vi[0])]
+    qs = [q for q in qs if q[1] > 0]
+    ctx.stats["fine_step_stream"] += 1
+    check_table(ctx, kind, z, t, qs, {"kind": kind, "z": z, "table": t, "queries": qs, "step_ratio": ratio, "fine": True},
+                fine=True)
 
 
 def corpus_f11():
@@ -405,6 +457,12 @@ def run(ctx):
         t = ctorgen.gen_table(ctx.rng, z, 0, 1, const=0.5 if z != "ig" else 0.01)
         br = [{"v": 12.0, "i": 0.3, "kind": kind, "args": comp_args(kind, z, t)}]
         check_const(ctx, probe.probe_desc(br)[0])
+    # finding F31-C10-QHULL-NAN: tables with an axis step between 1e-4 and 1e-3 of the largest coordinate (dedicated stream)
+    for kind, z, t in FINE_WITNESSES:
+        top = max(max(t["io"]), max(t["vi"]))
+        fine_stream(ctx, kind, z, t, min(b - a for a, b in zip(t["io"], t["io"][1:])) / top)
+    for _ in range(ctx.n(60, 3000)):
+        fine_stream(ctx, *gen_fine(ctx.rng))
     # former finding F11 (io axis increasing as given but not in magnitude; fixed in /repo b59f1ff): the witness and a small
     # stream stay as regression — the table must be refused by the constructor, or evaluated exactly at its knots
     f11 = [("vloss", "vdrop", F11_WITNESS)] + corpus_f11() + [gen_f11(ctx.rng) for _ in range(ctx.n(6, 60))]
@@ -428,4 +486,4 @@ def replay(ctx, data):
         return
     qs = [tuple(q) for q in case["queries"]]
     f11 = any(x < 0 for x in case["table"]["io"]) and len(case["table"]["vi"]) == 1
-    check_table(ctx, case["kind"], case["z"], case["table"], qs, case, f11=f11)
+    check_table(ctx, case["kind"], case["z"], case["table"], qs, case, f11=f11, fine=bool(case.get("fine")))
